@@ -79,3 +79,29 @@ package bulkhead
 //@   ensures [C06.admitted_returns_inner] ncalls(innerFn) == 1 ==> result == ret(innerFn, 1) && arg(innerFn, 1, 0) == exec
 //@   havoc
 //@   modifies calls(innerFn), calls(exec.Context), calls(exec.CopyWithResult), calls(e.onFull), calls(ctx.Done), calls(ctx.Err), calls(background().Done), calls(background().Err), canceled(ctx), canceled(background())
+
+// One executor per execution: fresh, pointing back at itself (the template dispatches PreExecute / PostExecute through that
+// pointer) and at this policy.
+//@ func (*bulkhead).ToExecutor
+//@   builder
+//@   requires b != nil
+//@   let x := asref(result, *executor)
+//@   ensures [C01.toexecutor.fresh_self_referential+C06.toexecutor] typeis(result, *executor) && fresh(x) && x.bulkhead == b && x.BaseExecutor != nil && fresh(x.BaseExecutor) && typeis(x.Executor, *executor) && asref(x.Executor, *executor) == x
+//@   modifies nothing
+
+// Builders: the semaphore's capacity is the configured concurrency; it starts empty.
+//@ func Builder
+//@   builder
+//@   let c := asref(result, *config)
+//@   ensures [C06.builder.max_concurrency] typeis(result, *config) && fresh(c) && c.maxConcurrency == maxConcurrency && c.maxWaitTime == 0 && c.onFull == nil
+//@   modifies nothing
+//@ func (*config).WithMaxWaitTime
+//@   builder
+//@   requires c != nil
+//@   ensures [C06.builder.max_wait] c.maxWaitTime == maxWaitTime && c.maxConcurrency == old(c.maxConcurrency) && result == asiface(c)
+//@   modifies c.maxWaitTime
+//@ func (*config).OnFull
+//@   builder
+//@   requires c != nil
+//@   ensures [C16.bulkhead.listener_registered] c.onFull == listener && result == asiface(c)
+//@   modifies c.onFull
